@@ -278,11 +278,29 @@ where
         rset.buf_positions.clear();
         let mut is_new = true;
 
+        // If an invalid record is encountered after valid ones, the valid records
+        // are returned first (independently of how many records fit into the buffer).
+        // The invalid record is then parsed again by the next call, which returns the error.
+        macro_rules! try_or_defer {
+            ($expr: expr) => {
+                match $expr {
+                    Ok(item) => item,
+                    Err(e) => {
+                        if rset.buf_positions.is_empty() || matches!(e, Error::Io(_) | Error::BufferLimit) {
+                            return Some(Err(e));
+                        }
+                        self.state = State::Positioned;
+                        break;
+                    }
+                }
+            };
+        }
+
         while self.state != State::Finished {
             if let Some(pos) = self.incomplete_pos.take() {
                 // resume incomplete search after previous read_record_set(), or
                 // after a seek() call.
-                if !try_opt!(self.resume_incomplete_search(pos, is_new)) {
+                if !try_or_defer!(self.resume_incomplete_search(pos, is_new)) {
                     // end of input: return the records found so far (if any)
                     if rset.buf_positions.is_empty() {
                         return None;
@@ -292,7 +310,7 @@ where
             } else {
                 // search the next complete record after `next()`, or in
                 // later iterations of this loop
-                if !try_opt!(self.search()) {
+                if !try_or_defer!(self.search()) {
                     // At least one record must be present. If not, continue
                     // with `resume_incomplete_search()` in next iteration
                     if rset.buf_positions.is_empty() {
